@@ -389,7 +389,25 @@ func runC16Once(c bson.D, x *Ctx) error {
 		if err != nil {
 			return fmt.Errorf("wedged: after all scripts finished (every transaction committed, aborted or its session ended) a probe write failed after %v: %v\n%s", time.Since(t0).Round(time.Millisecond), err, goroutineDump())
 		}
-		// shutdown completes
+		// shutdown completes, and it releases a writer that is waiting for
+		// the slot with a context of its own (cancelable, far deadline)
+		hctx, hcancel := context.WithTimeout(context.Background(), 3*time.Second)
+		held, herr := engine.Begin(hctx, true)
+		hcancel()
+		if herr != nil {
+			return fmt.Errorf("wedged: Begin(lock) after the probe write failed: %v\n%s", herr, goroutineDump())
+		}
+		waiter := make(chan error, 1)
+		go func() {
+			wctx, wcancel := context.WithTimeout(context.Background(), 60*time.Second)
+			defer wcancel()
+			txn, err := engine.Begin(wctx, true)
+			if err == nil {
+				engine.Abort(txn)
+			}
+			waiter <- err
+		}()
+		time.Sleep(20 * time.Millisecond)
 		cdone := make(chan struct{})
 		go func() { engine.Close(); close(cdone) }()
 		select {
@@ -397,6 +415,15 @@ func runC16Once(c bson.D, x *Ctx) error {
 		case <-time.After(tLive):
 			return fmt.Errorf("Engine.Close did not return within %v\n%s", tLive, goroutineDump())
 		}
+		select {
+		case werr := <-waiter:
+			if !errors.Is(werr, lungo.ErrEngineClosed) {
+				return fmt.Errorf("a Begin(lock) that was waiting for the writer slot when the engine shut down returned %v, want the closed error", werr)
+			}
+		case <-time.After(3 * time.Second):
+			return fmt.Errorf("a Begin(lock) that was waiting for the writer slot (context with a 60 s deadline) is still blocked 3 s after Engine.Close returned\n%s", goroutineDump())
+		}
+		engine.Abort(held)
 	}
 	// after shutdown: closed errors, promptly
 	t0 := time.Now()
